@@ -50,3 +50,23 @@ def r7_nesting(ctx):
 
 
 RULES = [r1_delay, r2_cycle_entry, r3_vertex, r4_refine, r5_skip, r6_run, r7_nesting]
+
+
+def r8_assumptions(ctx):
+    ctx.rule("C06.r8", "under an assumption map every pre-state the iterator stores (set_pre) or propagates (compute_post) for a block is "
+             "met with the assumption of that block AFTER the last join of predecessor posts - at a plain block and at a loop head "
+             "alike, for the states entering the loop and for those coming back along the back edges (typestate over the paths of "
+             "visit(vertex) / visit(cycle); bottom and the no-assumption branch count as strengthened)", floor=6)
+    it.assumption_rule(ctx, "C06.r8")
+
+
+RULES += [r8_assumptions]
+
+
+def r9_start_covered(ctx):
+    ctx.rule("C06.r9", "a run started at a chosen block traverses a WTO that contains that block (looked up before the traversal, or "
+             "the WTO is built from it); the member WTO is built from the CFG entry only", floor=1)
+    it.start_covered_rule(ctx, "C06.r9")
+
+
+RULES += [r9_start_covered]
